@@ -251,3 +251,104 @@ def studio_files(files_path):
 def run_make(args):
     cases_path, files_path, seed = args
     return make_files(cases_path, files_path, seed)
+
+
+# ---------------------------------------------------------------- Studio-written anchor files
+
+def _studio_expected(model, wiremap):
+    """Interpret a Studio-written file with the document (refbin) and the database facts (wiremap)
+    into the canonical dump the reader should produce, for the properties whose interpretation is
+    unambiguous; everything else is left out (subset comparison)."""
+    wd = refbin.dump_from_model(model, dangling='null')
+    skipped = {}
+
+    def conv(cls, wname, wv):
+        info = wiremap.get((cls, wname), {'status': 'unknown'})
+        st = info['status']
+        t, p = wv['t'], wv['v']
+        if st in ('noserialize', 'migrate', 'unknown-kind'):
+            skipped[st] = skipped.get(st, 0) + 1
+            return None
+        if st == 'unknown':
+            back, declared = wname, None
+        else:
+            back, declared = info['back'], info['declared']
+        if t == 'String':
+            raw = bytes.fromhex(p)
+            if declared in (None, 'BinaryString'):
+                return back, {'t': 'BinaryString', 'v': p}
+            if declared in ('String', 'ContentId'):
+                try:
+                    return back, {'t': declared, 'v': raw.decode('utf-8')}
+                except UnicodeDecodeError:
+                    skipped['non-utf8-string'] = skipped.get('non-utf8-string', 0) + 1
+                    return None
+            if declared == 'Tags':
+                try:
+                    return back, {'t': 'Tags', 'v': [x.decode('utf-8') for x in raw.split(b'\0') if x]}
+                except UnicodeDecodeError:
+                    return None
+            if declared == 'Attributes':
+                try:
+                    a = refattr.decode(raw)
+                except refattr.RefError:
+                    return None
+                norm = {k: ({'t': 'BinaryString', 'v': v['v']} if v['t'] == 'String' else v) for k, v in a.items()}
+                return back, {'t': 'Attributes', 'v': norm}
+            if declared == 'MaterialColors' and len(raw) == 69:
+                return back, {'t': 'MaterialColors', 'v': (b'\0' * 6 + raw[6:]).hex()}
+            skipped['string-as-' + str(declared)] = skipped.get('string-as-' + str(declared), 0) + 1
+            return None
+        if t == 'BrickColor':
+            return back, {'t': 'BrickColor', 'v': p & 0xffff} if p <= 0xffff else None
+        if t == 'ColorSequence':
+            return back, {'t': t, 'v': [k[:4] for k in p]}
+        if t == 'Int32' and declared == 'Int64':
+            return back, {'t': 'Int64', 'v': p}
+        if t == 'Float32' and declared == 'Float64':
+            x = struct.unpack('>f', bytes.fromhex(p))[0]
+            return back, {'t': 'Float64', 'v': struct.pack('>d', x).hex()}
+        if t == 'Font' and not p.get('cached'):
+            p = dict(p, cached=None)
+        if declared is not None and declared != t and not (t == 'Color3uint8' and declared == 'Color3') and not (t == 'Enum' and declared == 'Enum'):
+            skipped[f'{t}-as-{declared}'] = skipped.get(f'{t}-as-{declared}', 0) + 1
+            return None
+        return back, {'t': t, 'v': p}
+
+    def node(n):
+        props = {}
+        for wname, wv in n['props'].items():
+            r = conv(n['class'], wname, wv)
+            if r and r[1] is not None:
+                props[r[0]] = r[1]
+        return {'class': n['class'], 'name': n['name'], 'props': props, 'children': [node(c) for c in n['children']]}
+
+    return {'roots': [node(r) for r in wd['roots']]}, skipped
+
+
+def studio_cases(files_path, wiremap_cmd):
+    """wiremap_cmd(pairs) -> list of dicts. Writes readcmp records for the Studio-written files."""
+    base = '/repo/rbx_binary/benches/files'
+    n = 0
+    info = {}
+    with open(files_path, 'w') as out:
+        for name in sorted(os.listdir(base)) if os.path.isdir(base) else []:
+            p = os.path.join(base, name)
+            if not name.endswith('.rbxm') or os.path.getsize(p) == 0:
+                continue
+            data = open(p, 'rb').read()
+            try:
+                model = refbin.decode(data, variant={'uniqueid': 'interleaved_be_rotated'})
+            except refbin.RefError:
+                model = refbin.decode(data, variant={'uniqueid': 'interleaved_be_rotated', 'content_sourcetypes': 'zigzag'})
+            classes = {c['body']['class_id']: c['body']['class_name'] for c in model['chunks'] if c['name'] == 'INST'}
+            pairs = sorted({(classes[c['body']['class_id']], c['body']['name']) for c in model['chunks'] if c['name'] == 'PROP' and c['body']['name'] != 'Name'})
+            wm = {(r['class'], r['wire']): r for r in wiremap_cmd([list(x) for x in pairs])}
+            expected, skipped = _studio_expected(model, wm)
+            sys.setrecursionlimit(100000)
+            nprops = sum(len(nd['props']) for nd, _ in walk(expected))
+            info[name] = {'bytes': len(data), 'instances': sum(1 for _ in walk(expected)), 'property_values_compared': nprops, 'not_interpreted': skipped}
+            out.write(json.dumps({'id': 'studio.' + name, 'origin': {'studio_file': name}, 'fmt': 'bin', 'bytes_hex': data.hex(), 'expected': expected,
+                                  'subset': True, 'tags': ['studio-file'], 'sig': ':studio-file'}) + '\n')
+            n += 1
+    return n, info
